@@ -160,6 +160,17 @@ fn private_is_dirty(
                     dirty = Dirtiness::Dirty;
                 }
             }
+            DepMode::Modified if crate::cycles::check(f2.id().to_string()).is_err() => {
+                // An ancestor of the script that asked for this check is
+                // building f2 right now.  Its row and its dependency rows are in
+                // mid-build and say nothing, and this edge was recorded by an
+                // earlier run: f has to be rebuilt.  If its script still asks
+                // for f2, the cycle is reported then; if it no longer does (the
+                // dependency was turned round), there is none.  (Walking into
+                // f2's half-written rows took the new edge f2 -> f for a cycle.)
+                log_debug!("{}-- DIRTY ({:?} is being built by an ancestor)\n", depth, f2.id());
+                dirty = Dirtiness::Dirty;
+            }
             DepMode::Modified
                 if f2.is_generated()
                     && !already_checked.contains(&f2.id())
